@@ -1,15 +1,121 @@
-"""Model checking of the TLA+ specification configurations per property (TLC).  Results are
-independent of /repo and cached by the machinery hash."""
+"""Model checking of the TLA+ specification configurations that concern a property (TLC).
+
+The results depend only on the specification, not on /repo, and are cached by the hash of the
+spec files.  A counterexample here is a statement about the DESIGN as modelled (spec/Minimq.tla is
+the as-built behaviour): it is reported as a tool error, not as a verdict about the code -- verdicts
+about the code come from executions of the real crate (trace validation).
+"""
+import hashlib
 import json
 import os
+import re
+import shutil
+import subprocess
+from concurrent.futures import ThreadPoolExecutor
 
-# property -> list of (config name, quick constants, thorough constants); filled in as the
-# specification grows (see spec/MC_*.cfg)
-PLAN = {}
+ROOT = os.path.dirname(os.path.dirname(os.path.abspath(__file__)))
+SPEC = os.path.join(ROOT, "spec")
+TLC = ("java -Xss512m -Xmx%s -XX:+UseParallelGC -cp /opt/veriftools/tla/tla2tools.jar:"
+       "/opt/veriftools/tla/CommunityModules-deps.jar tlc2.TLC")
+
+# (module, config, workers, heap, timeout s)
+FLOW_QUICK = [("MC_flow.tla", "MC_flow_out.cfg", 6, "6g", 600), ("MC_flow.tla", "MC_flow_wrap.cfg", 2, "2g", 300),
+              ("MC_flow.tla", "MC_cover_q1.cfg", 2, "2g", 300), ("MC_flow.tla", "MC_cover_q2.cfg", 2, "2g", 300)]
+FLOW_THOROUGH = FLOW_QUICK + [("MC_flow.tla", "MC_cover_q3.cfg", 4, "4g", 600), ("MC_flow.tla", "MC_flow_mix.cfg", 8, "8g", 1800),
+                              ("MC_flow.tla", "MC_flow_in.cfg", 12, "12g", 3600), ("MC_flow.tla", "MC_cover_a.cfg", 8, "8g", 1800)]
+FLOW_PROPS = ["C01", "C02", "C03", "C04", "C05", "C06", "C07", "C11", "C12", "C13", "C16", "C18"]
+PLAN = {p: {"quick": FLOW_QUICK, "thorough": FLOW_THOROUGH} for p in FLOW_PROPS}
+# filled in by the other specification modules as they are added
+EXTRA = {}
+
+
+def spec_hash(files):
+    h = hashlib.sha256()
+    for f in files:
+        h.update(open(os.path.join(SPEC, f), "rb").read())
+    return h.hexdigest()[:16]
+
+
+def deps(module):
+    """modules a model-checking module extends, transitively (by file name)"""
+    seen, todo = [], [module]
+    while todo:
+        m = todo.pop()
+        if m in seen or not os.path.exists(os.path.join(SPEC, m)):
+            continue
+        seen.append(m)
+        txt = open(os.path.join(SPEC, m)).read()
+        mm = re.search(r"EXTENDS([^\n]*(?:\n[ \t]+[^\n]*)*)", txt)
+        if mm:
+            todo += [x.strip() + ".tla" for x in mm.group(1).replace("\n", " ").split(",")]
+        for inst in re.findall(r"INSTANCE\s+(\w+)", txt):
+            todo.append(inst + ".tla")
+    return seen
+
+
+def run_one(module, cfg, workers, heap, timeout, cache):
+    files = deps(module) + [cfg]
+    key = "%s-%s-%s" % (module, cfg, spec_hash(files))
+    cfile = os.path.join(cache, "mc", key + ".json")
+    if os.path.exists(cfile):
+        return json.load(open(cfile))
+    work = os.path.join(cache, "mc", "work-" + key)
+    shutil.rmtree(work, ignore_errors=True)
+    os.makedirs(work)
+    for f in files:
+        shutil.copy(os.path.join(SPEC, f), work)
+    cmd = "timeout %d %s -workers %d -metadir %s/meta -cleanup -noGenerateSpecTE -coverage 1 -config %s %s" % (
+        timeout, TLC % heap, workers, work, cfg, module)
+    r = subprocess.run(cmd, shell=True, cwd=work, capture_output=True, text=True)
+    out = r.stdout
+    res = {"cfg": cfg, "module": module, "generated": 0, "distinct": 0, "depth": 0, "violated": None, "trace": "",
+           "complete": False, "error": None, "actions_never_taken": []}
+    m = re.search(r"(\d+) states generated, (\d+) distinct states found, (\d+) states left on queue", out)
+    if m:
+        res["generated"], res["distinct"] = int(m.group(1)), int(m.group(2))
+        res["complete"] = int(m.group(3)) == 0 and "Model checking completed" in out
+    m = re.search(r"depth of the complete state graph search is (\d+)", out)
+    if m:
+        res["depth"] = int(m.group(1))
+    m = re.search(r"Invariant (\w+) is violated", out)
+    if m:
+        res["violated"] = m.group(1)
+        i = out.index("The behavior up to this point")
+        res["trace"] = out[i:i + 20000]
+    elif "Error:" in out:
+        res["error"] = out[out.index("Error:"):][:3000]
+    elif not m and not res["complete"]:
+        res["error"] = "TLC did not finish (timeout %ds?)\n" % timeout + out[-1500:]
+    # -coverage 1: actions that were never taken make the run vacuous for them
+    for am in re.finditer(r"<(\w+) line \d+, col \d+ to line \d+, col \d+ of module (\w+)>: (\d+):(\d+)", out):
+        if am.group(3) == "0" and am.group(4) == "0":
+            res["actions_never_taken"].append(am.group(1))
+    shutil.rmtree(work, ignore_errors=True)
+    if res["complete"] or res["violated"]:
+        os.makedirs(os.path.dirname(cfile), exist_ok=True)
+        json.dump(res, open(cfile, "w"))
+    return res
 
 
 def run_for(prop, tier, cache, mach_h, jobs=12):
-    plan = PLAN.get(prop, [])
+    plan = PLAN.get(prop, {}).get(tier, []) + EXTRA.get(prop, {}).get(tier, [])
+    out = {"states": 0, "transitions": 0, "samples": [], "detail": {}, "violations": [], "exhaustive": False}
     if not plan:
-        return {"states": 0, "transitions": 0, "samples": [], "detail": {}, "violations": []}
-    raise NotImplementedError
+        return out
+    par = max(1, jobs // max(w for (_, _, w, _, _) in plan))
+    with ThreadPoolExecutor(max_workers=par) as ex:
+        results = list(ex.map(lambda p: run_one(*p, cache), plan))
+    complete = True
+    for res in results:
+        out["states"] += res["distinct"]
+        out["transitions"] += res["generated"]
+        out["detail"][res["cfg"]] = {k: res[k] for k in ("generated", "distinct", "depth", "complete", "violated", "actions_never_taken")}
+        complete = complete and res["complete"]
+        if res["error"]:
+            out["tool_error"] = "%s: %s" % (res["cfg"], res["error"])
+        if res["violated"]:
+            out["tool_error"] = "%s: the specification itself violates %s (a modelling error or an unlisted deviation)\n%s" % (
+                res["cfg"], res["violated"], res["trace"][:1500])
+    out["exhaustive"] = complete
+    out["samples"] = [{"model": r["cfg"], "distinct_states": r["distinct"], "depth": r["depth"]} for r in results[:3]]
+    return out
